@@ -162,6 +162,7 @@ fn drop_conn(run: &RunDesc, c: usize) -> RunDesc {
                 Action::Probe => Action::Probe,
                 Action::Hold => Action::Hold,
                 Action::Release => Action::Release,
+                Action::Tick(ms) => Action::Tick(*ms),
             }
         })
         .collect();
@@ -212,7 +213,7 @@ fn minimise(run: &RunDesc, class: &str) -> RunDesc {
     // probes and other single actions
     let mut i = 0;
     while i < cur.actions.len() && tries < limit {
-        if matches!(cur.actions[i], Action::Probe | Action::Hold | Action::Release | Action::Drain(..) | Action::HalfClose(_) | Action::Close(_) | Action::Reset(_)) {
+        if matches!(cur.actions[i], Action::Probe | Action::Hold | Action::Release | Action::Tick(_) | Action::Drain(..) | Action::HalfClose(_) | Action::Close(_) | Action::Reset(_)) {
             let mut cand = cur.clone();
             cand.actions.remove(i);
             if still_fails(&cand, class, &mut tries) {
@@ -502,7 +503,7 @@ fn check(tier: &str) -> i32 {
     ev.cov("distinct_interleavings", json!(interleavings.len()));
     ev.cov("interleaving_measure", json!("digest of the run's action sequence abstracted to (action kind, connection slot)"));
     ev.cov("runs_per_hour", json!((total as f64 / wall * 3600.0) as u64));
-    ev.cov("simulated_time", json!("none: hyper sets no timers and the handlers never await; progress is counted in simulator steps (totals.steps) and quiescence rounds"));
+    ev.cov("simulated_time", json!({"simulated_ms_total": stats.get("simulated_ms").copied().unwrap_or(0), "ticks": stats.get("ticks").copied().unwrap_or(0), "note": "tokio's clock is paused and moves only by the simulator's Tick actions (slow clients, 50-900 ms gaps, at most 8 s per run); the unchanged server sets no timers, so time is otherwise irrelevant and progress is counted in steps"}));
     ev.cov("determinism_selftest", json!({"runs_executed_twice": again.len(), "mismatches": mism.len(), "worker_counts": [threads, 3.min(threads)], "compared": "event-log digest, response digest (date header masked), verdicts"}));
     ev.cov("real_vs_stub", json!({"real": ["svgbob_server main.rs (unmodified, incl. PORT parsing and router construction)", "handlers", "axum routing / extractors / body limit", "hyper server: accept loop, per-connection tasks, HTTP/1 parser and encoder, keep-alive, pipelining", "tokio current-thread scheduler", "svgbob library"], "stub": ["TCP listener and sockets (in-memory SimIncoming/SimStream)", "clients (scripted bytes)", "multi-thread flavour of the runtime (handlers share only the library's statics, which is C07's subject)", "getrandom (seeded)"]}));
     ev.cov("violation_classes_seen", json!(by_class.iter().map(|(k, v)| (k.clone(), v.1)).collect::<BTreeMap<_, _>>()));
